@@ -741,3 +741,42 @@ pub fn token_sequences(tokens: &[&[u8]], max_len: usize) -> Vec<Doc> {
     }
     out
 }
+
+// ------------------------------------------------------------------------------------------------
+// C05 with process isolation
+
+/// Run the C05 sweep over `groups` = (label, subjects, documents) in isolated worker processes.
+/// A worker that dies (abort on allocation failure, stack overflow, OOM kill) or stalls makes the
+/// announced (subject, document) unit a violation instead of killing the harness.
+pub fn c05_isolated(groups: &[(String, Vec<Box<dyn Subject>>, Vec<Doc>)], secs: f64, report: &mut Report) {
+    let mut units: Vec<(usize, usize, usize)> = Vec::new();
+    for (gi, (_, subs, docs)) in groups.iter().enumerate() {
+        for (si, di) in c05_units(subs, docs) {
+            units.push((gi, si, di));
+        }
+    }
+    let run_unit = |i: usize, rep: &mut Report| {
+        let (gi, si, di) = units[i];
+        c05_unit(groups[gi].1[si].as_ref(), &groups[gi].2[di].bytes, rep);
+        rep.states += 1;
+        rep.nontrivial += 1;
+    };
+    if let Some(w) = crate::isolate::worker_spec() {
+        let deadline = std::time::Instant::now() + std::time::Duration::from_secs_f64(secs);
+        crate::isolate::run_worker(&w, units.len(), run_unit, Some(deadline));
+    }
+    let crashes = crate::isolate::run_parent(units.len(), crate::threads(), 8 << 20, 20.0, report);
+    for c in crashes {
+        let (gi, si, di) = units[c.unit];
+        let subject = groups[gi].1[si].as_ref();
+        let input = &groups[gi].2[di].bytes;
+        let key = format!("{}/totality/abort-or-hang", family_of(subject));
+        report.violation(key, format!("{} on {:?}: {} (abort / stack overflow / memory exhaustion / non-termination)", subject.name(), show(input), c.how), replay_json("C05", subject, input, &Spec::oneshot()), input.len() as u64);
+    }
+    for (label, subs, docs) in groups {
+        report.count(&format!("{label}_documents"), docs.len() as u64);
+        if report.caps.is_empty() {
+            report.completed.push(format!("{label}: {} documents x {} subjects x {{one-shot, 1 byte per read with chunk 1}}, in isolated worker processes (8 GiB address space, 20 s stall limit)", docs.len(), subs.len()));
+        }
+    }
+}
